@@ -148,6 +148,18 @@ pub fn run(a: &Args) -> i32 {
     if prop == "C02" {
         collision_pass(&w, &sink, &mut rep);
     }
+    if prop == "C05" {
+        c05_constants(&sink, &mut rep);
+        c05_setup_orders(&sink, &mut rep);
+        rep.mandatory.push("constant_pairs_compared".into());
+        rep.mandatory.push("set_up_orders_compared".into());
+        if a.tier == "thorough" {
+            if let Err(e) = crate::draws::run_draws("C05", 4, &mut rep, &sink) {
+                eprintln!("MACHINERY-ERROR: {}", e);
+                return 2;
+            }
+        }
+    }
     rep.finish(&sink)
 }
 
@@ -311,4 +323,135 @@ pub fn replay_with_flags(v: &serde_json::Value, prop: &str, flags: u32) -> i32 {
         println!("REPRODUCED property={} class={} :: {}", prop, class, outcomes[0][0]);
         1
     }
+}
+
+/// C05 part 2: read every key constant black-box (single-feature boards) and compare all pairs.
+fn c05_constants(sink: &Sink, rep: &mut Report) {
+    use chess::board::Board;
+    let mut vals: Vec<(String, u64)> = Vec::new();
+    for k in KINDS {
+        for side in [Side::White, Side::Black] {
+            for sq in 0..64u8 {
+                let mut b = Board::new();
+                let base = b.current_position_hash();
+                b.put(bb(sq), piece_of(k), color_of(side)).unwrap();
+                vals.push((format!("piece {:?} {:?} {}", k, side, sq_name(sq)), b.current_position_hash() ^ base));
+                // removing it again must give the base key back
+                b.remove(bb(sq));
+                if b.current_position_hash() != base {
+                    sink.push(Violation { prop: "C05".into(), class: "put-remove-not-inverse".into(), seed: format!("{:?} {:?} on {}", k, side, sq_name(sq)), path: vec![], detail: "key after put+remove differs from the empty board's".into(), extra: json!({"kind": "c05-const"}) });
+                }
+            }
+        }
+    }
+    for sq in 0..64u8 {
+        let mut b = Board::new();
+        let base = b.current_position_hash();
+        b.push_en_passant_target(bb(sq));
+        vals.push((format!("ep target {}", sq_name(sq)), b.current_position_hash() ^ base));
+        b.pop_en_passant_target();
+        if b.current_position_hash() != base {
+            sink.push(Violation { prop: "C05".into(), class: "ep-push-pop-not-inverse".into(), seed: sq_name(sq), path: vec![], detail: "key after push+pop of an ep target differs".into(), extra: json!({"kind": "c05-const"}) });
+        }
+    }
+    for lost in 1..16u8 {
+        let mut b = Board::new();
+        let base = b.current_position_hash();
+        b.lose_castle_rights(lost);
+        vals.push((format!("rights set {:04b} (relative to all rights)", 0b1111 & !lost), b.current_position_hash() ^ base));
+        b.pop_castle_rights();
+        if b.current_position_hash() != base {
+            sink.push(Violation { prop: "C05".into(), class: "rights-lose-pop-not-inverse".into(), seed: format!("{:04b}", lost), path: vec![], detail: "key after lose+pop of castle rights differs".into(), extra: json!({"kind": "c05-const"}) });
+        }
+    }
+    let mut pairs = 0u64;
+    for (i, (n, v)) in vals.iter().enumerate() {
+        if *v == 0 {
+            sink.push(Violation { prop: "C05".into(), class: "zero-key-constant".into(), seed: n.clone(), path: vec![], detail: "this component contributes nothing to the key".into(), extra: json!({"kind": "c05-const"}) });
+        }
+        for (m, w) in vals[i + 1..].iter() {
+            pairs += 1;
+            if v == w {
+                sink.push(Violation { prop: "C05".into(), class: "equal-key-constants".into(), seed: format!("{} / {}", n, m), path: vec![], detail: format!("both contribute {:#018x}", v), extra: json!({"kind": "c05-const"}) });
+            }
+        }
+    }
+    let mut dg = 0xcbf29ce484222325u64;
+    for (_, v) in &vals {
+        dg = (dg ^ v).wrapping_mul(0x100000001b3);
+    }
+    rep.add("key_constants_read_black_box", vals.len() as u64);
+    rep.add("constant_pairs_compared", pairs);
+    rep.add("zobrist_table_digest_low32", dg & 0xFFFF_FFFF);
+    rep.states += vals.len() as u64;
+    rep.transitions += pairs;
+}
+
+/// C05 part 1b: the key of a set-up board does not depend on the order of the set-up calls.
+fn c05_setup_orders(sink: &Sink, rep: &mut Report) {
+    let fens = [
+        "4k3/8/8/3pP3/8/8/8/R3K3 w Q d6 0 1",
+        "r3k2r/8/8/8/8/8/8/R3K2R b Kq - 0 1",
+        "8/P6k/8/8/2pP4/8/8/K7 b - d3 0 1",
+    ];
+    let mut n = 0u64;
+    for f in fens {
+        let p = Pos::from_fen(f).unwrap();
+        let reference = build_board(&Pos { halfmove: 0, ply: 0, ..p.clone() }).current_position_hash();
+        // operations: one put per piece, one rights call, one ep call; all permutations (<= 8 ops)
+        #[derive(Clone, Copy)]
+        enum Op {
+            Put(u8),
+            Rights,
+            Ep,
+        }
+        let mut ops: Vec<Op> = (0..64u8).filter(|s| p.sq[*s as usize].is_some()).map(Op::Put).collect();
+        ops.push(Op::Rights);
+        if p.ep.is_some() {
+            ops.push(Op::Ep);
+        }
+        let mut idx: Vec<usize> = (0..ops.len()).collect();
+        // Heap's algorithm
+        let mut c = vec![0usize; idx.len()];
+        let mut eval = |idx: &Vec<usize>| {
+            let mut b = chess::board::Board::new();
+            for &i in idx {
+                match ops[i] {
+                    Op::Put(s) => {
+                        let (k, side) = p.sq[s as usize].unwrap();
+                        b.put(bb(s), piece_of(k), color_of(side)).unwrap();
+                    }
+                    Op::Rights => {
+                        b.lose_castle_rights(0b1111 & !p.castle);
+                    }
+                    Op::Ep => {
+                        b.push_en_passant_target(bb(p.ep.unwrap()));
+                    }
+                }
+            }
+            n += 1;
+            if b.current_position_hash() != reference {
+                sink.push(Violation { prop: "C05".into(), class: "key-depends-on-set-up-order".into(), seed: f.into(), path: vec![], detail: format!("call order {:?} gives {:#018x}, the canonical order gives {:#018x}", idx, b.current_position_hash(), reference), extra: json!({"kind": "c05-const"}) });
+            }
+        };
+        eval(&idx);
+        let mut i = 0;
+        while i < idx.len() {
+            if c[i] < i {
+                if i % 2 == 0 {
+                    idx.swap(0, i);
+                } else {
+                    idx.swap(c[i], i);
+                }
+                eval(&idx);
+                c[i] += 1;
+                i = 0;
+            } else {
+                c[i] = 0;
+                i += 1;
+            }
+        }
+    }
+    rep.add("set_up_orders_compared", n);
+    rep.states += n;
 }
